@@ -30,6 +30,32 @@ pub struct Case15 {
     /// Some(alias) e.g. Color3uint8 for Color, which is how a Roblox-written file spells it)
     #[serde(default)]
     pub new_spelling: Option<String>,
+    /// a second instance of the same class, after the subject, that carries the legacy value
+    /// under this spelling (any spelling that migrates to the same new property): what a
+    /// sibling carries must not change how the subject migrates
+    #[serde(default)]
+    pub sibling: Option<String>,
+}
+
+/// every spelling that, for `class`, migrates to `new_name`
+fn legacy_spellings(class: &str, new_name: &str) -> Vec<String> {
+    let mut out = Vec::new();
+    if let Some(chain) = specdb::class_chain(class) {
+        for c in chain {
+            for (p, _) in c.properties.iter() {
+                if let Lookup::Known(k) = specdb::lookup(class, p) {
+                    if let Ser::Migrate { to, .. } = &k.ser {
+                        if to == new_name {
+                            out.push(p.to_string());
+                        }
+                    }
+                }
+            }
+        }
+    }
+    out.sort();
+    out.dedup();
+    out
 }
 
 /// alias spellings of `new_name` reachable for `class`
@@ -245,7 +271,7 @@ pub fn judge(c: &Case15) -> Vec<(String, String)> {
     let explicit = explicit_value(&direct);
     let want = if c.explicit_new { r(&explicit) } else { r(&direct) };
 
-    let build = |legacy_first: bool| -> WeakDom {
+    let build_with = |legacy_first: bool, with_sibling: bool| -> WeakDom {
         let mut b = InstanceBuilder::new(c.class.as_str()).with_name("subject");
         if c.explicit_new && !legacy_first {
             b = b.with_property(spelled.as_str(), explicit.clone());
@@ -254,11 +280,24 @@ pub fn judge(c: &Case15) -> Vec<(String, String)> {
         if c.explicit_new && legacy_first {
             b = b.with_property(spelled.as_str(), explicit.clone());
         }
-        WeakDom::new(InstanceBuilder::new("DataModel").with_child(b))
+        let mut root = InstanceBuilder::new("DataModel").with_child(b);
+        if let (Some(sp), true) = (&c.sibling, with_sibling) {
+            let other = values.get((c.value + 1) % values.len()).map(|v| v.1.clone()).unwrap_or_else(|| legacy_value.clone());
+            root = root.with_child(InstanceBuilder::new(c.class.as_str()).with_name("sibling").with_property(sp.as_str(), other));
+        }
+        WeakDom::new(root)
     };
+    let build = |legacy_first: bool| build_with(legacy_first, true);
+    // the legacy-named files of the read paths are written without a database, which stores a
+    // neutral value for whoever lacks a column: a sibling under *another* legacy spelling would
+    // make the file itself state two different legacy values for the subject
+    let sibling_in_files = c.sibling.as_deref() == Some(c.legacy.as_str());
 
     let mut paths: Vec<(String, PathResult)> = Vec::new();
-    for legacy_first in [true, false] {
+    // with a sibling the write paths are repeated on freshly built DOMs: which of two entries a
+    // small property map lists first depends on its per-map hash seed
+    let rounds: &[bool] = if c.sibling.is_some() { &[true, false, true, false, true, false, true, false, true, false, true, false] } else { &[true, false] };
+    for &legacy_first in rounds {
         if !c.explicit_new && !legacy_first {
             continue;
         }
@@ -294,7 +333,7 @@ pub fn judge(c: &Case15) -> Vec<(String, String)> {
     }
     // read paths: a foreign file that still carries the legacy name, both encounter orders
     {
-        let dom = build(true);
+        let dom = build_with(true, sibling_in_files);
         let roots = dom.root().children().to_vec();
         let res = crate::evidence::guarded(|| -> Vec<(String, PathResult)> {
             let mut v = Vec::new();
@@ -522,12 +561,24 @@ pub fn cases() -> Vec<Case15> {
         let n = legacy_values(&class, &legacy).len();
         for value in 0..n {
             for explicit_new in [false, true] {
-                out.push(Case15 { class: class.clone(), legacy: legacy.clone(), value, explicit_new, new_spelling: None });
+                out.push(Case15 { class: class.clone(), legacy: legacy.clone(), value, explicit_new, new_spelling: None, sibling: None });
             }
             if let Lookup::Known(k) = specdb::lookup(&class, &legacy) {
                 if let Ser::Migrate { to, .. } = &k.ser {
                     for sp in alias_spellings(&class, to) {
-                        out.push(Case15 { class: class.clone(), legacy: legacy.clone(), value, explicit_new: true, new_spelling: Some(sp) });
+                        out.push(Case15 { class: class.clone(), legacy: legacy.clone(), value, explicit_new: true, new_spelling: Some(sp.clone()), sibling: None });
+                        if value < 3 {
+                            for sib in legacy_spellings(&class, to) {
+                                out.push(Case15 { class: class.clone(), legacy: legacy.clone(), value, explicit_new: true, new_spelling: Some(sp.clone()), sibling: Some(sib) });
+                            }
+                        }
+                    }
+                    if value < 3 {
+                        for sib in legacy_spellings(&class, to) {
+                            for explicit_new in [false, true] {
+                                out.push(Case15 { class: class.clone(), legacy: legacy.clone(), value, explicit_new, new_spelling: None, sibling: Some(sib.clone()) });
+                            }
+                        }
                     }
                 }
             }
